@@ -163,6 +163,12 @@ def c11_cases(tier, seed):
             cases.append({"family": "cut", "base": b, "cut": cut})
     for name in ["two_triangles", "tri_square_pent", "tutte_graph", "bridge_graph"]:
         cases.append({"family": "example", "name": name})
+    # out-of-domain probes (no plaquette / tree-like vertex graph): a full search (early_stopping=False) needs n_edges+1
+    # iterations on a tree, so maxits = n_edges is NOT enough there; recorded in the evidence, K-compared, not a violation
+    cases.append({"family": "cut", "base": {"family": "example", "name": "honeycomb_lattice", "args": [2]}, "cut": [True, True], "probe": True})
+    cases.append({"family": "raw", "positions": [[0.1, 0.5], [0.5, 0.5], [0.9, 0.5]], "edges": [[0, 1], [1, 2]], "crossing": [[0, 0], [0, 0]], "probe": True})
+    cases.append({"family": "raw", "positions": [[0.05, 0.1], [0.1, 0.15], [0.1, 0.055], [0.15, 0.1], [0.55, 0.1], [0.55, 0.6]],
+                  "edges": [[0, 1], [0, 2], [1, 3], [2, 3], [3, 4], [4, 5]], "crossing": [[0, 0]] * 6, "probe": True})
     return cases
 
 
@@ -194,7 +200,7 @@ def run_impl(lat, kind, s, g, metric, early, maxits):
         return ("X", f"{type(e).__name__}: {e}")
 
 
-def eval_combo(ctx, case, lat, kind, metric, pairs, rng, label, maxits=None):
+def eval_combo(ctx, case, lat, kind, metric, pairs, rng, label, maxits=None, probe=False):
     """one lattice, one graph kind, one metric: all given (start, goal) pairs, both stopping modes"""
     res = ctx.res
     n = lat.n_plaquettes if kind == "plaq" else lat.n_vertices
@@ -248,6 +254,15 @@ def eval_combo(ctx, case, lat, kind, metric, pairs, rng, label, maxits=None):
             res.violation("path-crash", f"{kind} path {s}->{g} metric={metric} early={early}: {r[1]}", rcase)
             continue
         if r[0] == "E":
+            if probe:
+                # out-of-domain probe (tree-like lattice): recorded, not a violation; K: the model must fail too (or be a near-tie)
+                pr = res.extra.setdefault("budget_probe_full_search_not_found_with_maxits_n_edges", [])
+                if len(pr) < 6:
+                    pr.append({"lattice": case, "kind": kind, "metric": metric, "start": s, "goal": g, "early": early, "n_edges": lat.n_edges})
+                if m[0] == "P" and (m[1] == "N" or unhx(m[1]) / S > MARGIN):
+                    ctx.k_mismatch(f"{label}: implementation raised PathFindingError, model found a path; {kind} {s}->{g} {metric} early={early}", rcase)
+                res.traces += 1
+                continue
             res.violation("path-not-found-within-n_edges" if maxits == lat.n_edges else "path-not-found",
                           f"{kind} path {s}->{g} metric={metric} early_stopping={early} maxits={maxits} on a connected graph: PathFindingError", rcase)
             continue
@@ -273,6 +288,9 @@ def eval_combo(ctx, case, lat, kind, metric, pairs, rng, label, maxits=None):
         pl = stats["path_lengths"]
         b = "0" if len(edges) == 0 else "1-3" if len(edges) <= 3 else "4-10" if len(edges) <= 10 else ">10"
         pl[b] = pl.get(b, 0) + 1
+        if m[0] == "E" and m[1] != "N" and unhx(m[1]) / S <= MARGIN:
+            stats["near_tie_validity_cost_only"] += 1      # budget borderline decided by a near-tie
+            continue
         if m[0] != "P":
             ctx.k_mismatch(f"{label}: model result {m[0]} (E=PathFindingError, C=crash) but the implementation returned a path; {kind} {s}->{g} {metric} early={early}", rcase)
             continue
@@ -333,6 +351,11 @@ def evaluate(ctx, cases, label, all_pairs_max, n_random, only=None):
             res.skip("generator-could-not-build-lattice")
             continue
         rng = np.random.default_rng([ctx.seed, 1100 + ci])
+        # domain (property quantifier): lattices with at least one plaquette whose plaquette-adjacency graph is connected
+        probe = bool(case.get("probe"))
+        if not probe and (lat.n_plaquettes == 0 or components(lat.n_plaquettes, own_graph(lat, "plaq")) != 1):
+            res.skip("plaquette-graph-empty-or-not-connected")
+            continue
         for kind in ("plaq", "vert"):
             n = lat.n_plaquettes if kind == "plaq" else lat.n_vertices
             if n == 0:
@@ -346,7 +369,7 @@ def evaluate(ctx, cases, label, all_pairs_max, n_random, only=None):
             for metric in ("euclid", "periodic"):
                 if only and (kind, metric) != only:
                     continue
-                eval_combo(ctx, case, lat, kind, metric, pairs, rng, label)
+                eval_combo(ctx, case, lat, kind, metric, pairs, rng, label, probe=probe)
 
 
 # ------------------------------------------------------------------ metrics
@@ -440,4 +463,5 @@ def replay(ctx, payload):
         return
     lat = build_lattice(case["lattice"])
     rng = np.random.default_rng([ctx.seed, 1])
-    eval_combo(ctx, case["lattice"], lat, case["kind"], case["metric"], [tuple(p) for p in case["pairs"]], rng, "replay", maxits=case.get("maxits"))
+    eval_combo(ctx, case["lattice"], lat, case["kind"], case["metric"], [tuple(p) for p in case["pairs"]], rng, "replay", maxits=case.get("maxits"),
+               probe=bool(case["lattice"].get("probe")))
